@@ -8,3 +8,6 @@ open GN.Props.C12
 #print axioms parse_clauses
 #print axioms getters
 #print axioms iter_live
+#print axioms set_eq_spec
+#print axioms sort_spec
+#print axioms parse_serialize_id
